@@ -23,6 +23,12 @@ def _fpval(x):
 
 
 class SymFloat(float):
+    def __copy__(self):
+        return self
+
+    def __deepcopy__(self, memo):
+        return self
+
     _vf_sym = True
     _vf_float = True
 
